@@ -8,7 +8,7 @@ package routing
 // well-formed in-memory bundle; repeated calls return the same object.
 // govc:trusted (*BundleDescriptor).MustBundle
 //@ assigns descriptor.bndl
-//@ ensures result != nil && blocksNonNil(*result) && descriptor.bndl == result
+//@ ensures result != nil && blocksNonNil(*result) && sprayTyped(*result) && sprayUnique(*result) && descriptor.bndl == result
 //@ ensures old(descriptor.bndl) != nil ==> result == old(descriptor.bndl)
 
 // govc:trusted (*Core).HasEndpoint
@@ -17,16 +17,22 @@ package routing
 
 // ---- vanilla spray and wait: metadata.remainingCopies + |sent| is the budget; the last copy is never handed out ----
 
-// A failed transmission gives its copy back and makes exactly that peer eligible again.
+// A failed transmission gives its copy back and makes exactly that peer eligible again. A copy was spent only on peers
+// in the sent list: a failure reported for any other peer (direct delivery to the destination, a sender dropped by the
+// mule wrapper) gives nothing back - otherwise repeated failures would raise the budget above L.
 // govc:func (*SprayAndWait).ReportFailure property C18 C13
 //@ requires sw.bundleData != nil && sender != nil
 //@ requires has(sw.bundleData, bp.Id) ==> sw.bundleData[bp.Id].remainingCopies < 18446744073709551615
+//@ ghost w int
 //@ assigns mapof(sw.bundleData), elems(sw.bundleData[bp.Id].sent)
 //@ ensures !old(has(sw.bundleData, bp.Id)) ==> !has(sw.bundleData, bp.Id)
-//@ ensures old(has(sw.bundleData, bp.Id)) ==> has(sw.bundleData, bp.Id) && sw.bundleData[bp.Id].remainingCopies == old(sw.bundleData[bp.Id].remainingCopies) + 1
-//@ ensures old(has(sw.bundleData, bp.Id)) ==> len(sw.bundleData[bp.Id].sent) == old(len(sw.bundleData[bp.Id].sent)) || len(sw.bundleData[bp.Id].sent) + 1 == old(len(sw.bundleData[bp.Id].sent))
-//@ loop 0 invariant 0 <= i && i <= len(metadata.sent) && metadata.remainingCopies == old(sw.bundleData[bp.Id].remainingCopies) + 1 && len(metadata.sent) == old(len(sw.bundleData[bp.Id].sent))
+//@ ensures old(has(sw.bundleData, bp.Id)) ==> has(sw.bundleData, bp.Id)
+//@ ensures old(has(sw.bundleData, bp.Id)) && (forall j int :: 0 <= j && j < old(len(sw.bundleData[bp.Id].sent)) ==> old(sw.bundleData[bp.Id].sent[j]) != sender.GetPeerEndpointID()) ==> sw.bundleData[bp.Id].remainingCopies == old(sw.bundleData[bp.Id].remainingCopies) && len(sw.bundleData[bp.Id].sent) == old(len(sw.bundleData[bp.Id].sent))
+//@ ensures old(has(sw.bundleData, bp.Id)) && 0 <= w && w < old(len(sw.bundleData[bp.Id].sent)) && old(sw.bundleData[bp.Id].sent[w]) == sender.GetPeerEndpointID() ==> sw.bundleData[bp.Id].remainingCopies == old(sw.bundleData[bp.Id].remainingCopies) + 1 && len(sw.bundleData[bp.Id].sent) + 1 == old(len(sw.bundleData[bp.Id].sent))
+//@ loop 0 invariant 0 <= i && i <= len(metadata.sent) && metadata.remainingCopies == old(sw.bundleData[bp.Id].remainingCopies) && sameSlice(metadata.sent, old(sw.bundleData[bp.Id].sent))
 //@ loop 0 invariant old(has(sw.bundleData, bp.Id)) && sw.bundleData[bp.Id].remainingCopies == old(sw.bundleData[bp.Id].remainingCopies) && has(sw.bundleData, bp.Id)
+//@ loop 0 invariant forall j int :: 0 <= j && j < i ==> metadata.sent[j] != sender.GetPeerEndpointID()
+//@ loop 0 invariant forall j int :: 0 <= j && j < len(metadata.sent) ==> metadata.sent[j] == old(sw.bundleData[bp.Id].sent[j])
 //@ loop 0 decreases len(metadata.sent) - i
 
 // Textual bundle id, used for logging only.
@@ -49,3 +55,66 @@ package routing
 //@ loop 0 invariant metadata.remainingCopies >= 1 && metadata.remainingCopies + uint64(len(css)) == old(sw.bundleData[bp.Id].remainingCopies)
 //@ loop 0 invariant len(metadata.sent) == old(len(sw.bundleData[bp.Id].sent)) + len(css) && len(css) <= rangeindex + 1
 //@ loop 1 invariant 0 <= rangeindex + 1
+
+// ---- binary spray: half (rounded down) is announced to the one selected peer, the rest is kept ----
+
+// Copies announced in the bundle's binary spray block (0 if there is none).
+// govc:spec announced(b *bpv7.Bundle) uint64 = uf("sprayAnnounced", uint64, b)
+
+// govc:func (*BinarySpray).SenderForBundle property C18 C13
+//@ requires bs.bundleData != nil && bs.c != nil && bs.c.claManager != nil
+//@ requires bp.bndl != nil && blocksNonNil(*bp.bndl) && sprayTyped(*bp.bndl) && sprayUnique(*bp.bndl)
+//@ ensures !del && len(css) <= 1
+//@ ensures !old(has(bs.bundleData, bp.Id)) ==> len(css) == 0 && !has(bs.bundleData, bp.Id)
+//@ ensures old(has(bs.bundleData, bp.Id)) ==> has(bs.bundleData, bp.Id)
+//@ ensures old(has(bs.bundleData, bp.Id)) && len(css) == 0 ==> bs.bundleData[bp.Id].remainingCopies == old(bs.bundleData[bp.Id].remainingCopies) && len(bs.bundleData[bp.Id].sent) == old(len(bs.bundleData[bp.Id].sent))
+//@ ensures old(has(bs.bundleData, bp.Id)) && len(css) == 1 ==> bs.bundleData[bp.Id].remainingCopies == old(bs.bundleData[bp.Id].remainingCopies) - old(bs.bundleData[bp.Id].remainingCopies) / 2 && len(bs.bundleData[bp.Id].sent) == old(len(bs.bundleData[bp.Id].sent)) + 1
+//@ ensures old(has(bs.bundleData, bp.Id)) && old(bs.bundleData[bp.Id].remainingCopies) < 2 ==> len(css) == 0
+//@ ensures old(has(bs.bundleData, bp.Id)) && len(css) == 1 ==> bs.bundleData[bp.Id].sent[old(len(bs.bundleData[bp.Id].sent))] == css[0].GetPeerEndpointID()
+//@ ensures old(has(bs.bundleData, bp.Id)) && len(css) == 1 ==> forall j int :: 0 <= j && j < old(len(bs.bundleData[bp.Id].sent)) ==> old(bs.bundleData[bp.Id].sent[j]) != css[0].GetPeerEndpointID()
+//@ ensures old(has(bs.bundleData, bp.Id)) && len(css) == 1 ==> sprayIs(*bp.bndl, old(bs.bundleData[bp.Id].remainingCopies) / 2)
+//@ loop 0 invariant 0 <= rangeindex + 1 && has(bs.bundleData, bp.Id) && old(has(bs.bundleData, bp.Id))
+//@ loop 0 invariant bs.bundleData[bp.Id].remainingCopies == old(bs.bundleData[bp.Id].remainingCopies) && len(bs.bundleData[bp.Id].sent) == old(len(bs.bundleData[bp.Id].sent))
+//@ loop 0 invariant metadata.remainingCopies == old(bs.bundleData[bp.Id].remainingCopies) && metadata.remainingCopies >= 2 && sameSlice(metadata.sent, old(bs.bundleData[bp.Id].sent))
+//@ loop 0 invariant forall j int :: 0 <= j && j < len(metadata.sent) ==> metadata.sent[j] == old(bs.bundleData[bp.Id].sent[j])
+//@ loop 1 invariant 0 <= rangeindex + 1 && rangeindex + 1 <= len(metadata.sent)
+//@ loop 1 invariant forall j int :: 0 <= j && j < rangeindex + 1 ==> metadata.sent[j] != cs.GetPeerEndpointID()
+
+// A failed transmission restores the sender's count: the copies announced to the failed peer (the bundle's binary
+// spray block) return to the kept count and the peer becomes eligible again; a failure for a peer that was never
+// selected (not in the sent list) changes nothing.
+// govc:func (*BinarySpray).ReportFailure property C18 C13
+//@ requires bs.bundleData != nil && sender != nil
+//@ requires bp.bndl != nil && blocksNonNil(*bp.bndl) && sprayTyped(*bp.bndl) && sprayUnique(*bp.bndl)
+//@ ghost a uint64
+//@ ghost w int
+//@ requires sprayIs(*bp.bndl, a)
+//@ requires has(bs.bundleData, bp.Id) ==> bs.bundleData[bp.Id].remainingCopies <= 18446744073709551615 - a
+//@ ensures has(bs.bundleData, bp.Id) == old(has(bs.bundleData, bp.Id))
+//@ ensures old(has(bs.bundleData, bp.Id)) && (forall j int :: 0 <= j && j < old(len(bs.bundleData[bp.Id].sent)) ==> old(bs.bundleData[bp.Id].sent[j]) != sender.GetPeerEndpointID()) ==> bs.bundleData[bp.Id].remainingCopies == old(bs.bundleData[bp.Id].remainingCopies) && len(bs.bundleData[bp.Id].sent) == old(len(bs.bundleData[bp.Id].sent))
+//@ ensures old(has(bs.bundleData, bp.Id)) && 0 <= w && w < old(len(bs.bundleData[bp.Id].sent)) && old(bs.bundleData[bp.Id].sent[w]) == sender.GetPeerEndpointID() ==> forall j int :: 0 <= j && j < len(bp.bndl.CanonicalBlocks) && bp.bndl.CanonicalBlocks[j].Value.BlockTypeCode() == 192 ==> bs.bundleData[bp.Id].remainingCopies == old(bs.bundleData[bp.Id].remainingCopies) + a && len(bs.bundleData[bp.Id].sent) + 1 == old(len(bs.bundleData[bp.Id].sent))
+//@ loop 0 invariant 0 <= i && i <= len(metadata.sent) && metadata.remainingCopies == old(bs.bundleData[bp.Id].remainingCopies) && sameSlice(metadata.sent, old(bs.bundleData[bp.Id].sent))
+//@ loop 0 invariant old(has(bs.bundleData, bp.Id)) && has(bs.bundleData, bp.Id) && bs.bundleData[bp.Id].remainingCopies == old(bs.bundleData[bp.Id].remainingCopies)
+//@ loop 0 invariant forall j int :: 0 <= j && j < i ==> metadata.sent[j] != sender.GetPeerEndpointID()
+//@ loop 0 invariant forall j int :: 0 <= j && j < len(metadata.sent) ==> metadata.sent[j] == old(bs.bundleData[bp.Id].sent[j])
+//@ loop 0 decreases len(metadata.sent) - i
+
+// ---- what the spray variants remember about a new bundle (C18 budget, C13 previous node) ----
+
+// govc:func (*SprayAndWait).NotifyNewBundle property C18 C13
+//@ requires sw.bundleData != nil && sw.c != nil && bp.bndl != nil && blocksNonNil(*bp.bndl)
+//@ assigns mapof(sw.bundleData)
+//@ ensures has(sw.bundleData, bp.Id)
+//@ ensures uf("coreHasEndpoint", bool, sw.c, bp.bndl.PrimaryBlock.SourceNode) ==> sw.bundleData[bp.Id].remainingCopies == sw.l && len(sw.bundleData[bp.Id].sent) == 0
+//@ ensures !uf("coreHasEndpoint", bool, sw.c, bp.bndl.PrimaryBlock.SourceNode) ==> sw.bundleData[bp.Id].remainingCopies == 1
+//@ ensures !uf("coreHasEndpoint", bool, sw.c, bp.bndl.PrimaryBlock.SourceNode) ==> forall j int :: 0 <= j && j < len(bp.bndl.CanonicalBlocks) && bp.bndl.CanonicalBlocks[j].Value.BlockTypeCode() == 6 ==> len(sw.bundleData[bp.Id].sent) == 1 && exists k int :: 0 <= k && k < len(bp.bndl.CanonicalBlocks) && bp.bndl.CanonicalBlocks[k].Value.BlockTypeCode() == 6 && sw.bundleData[bp.Id].sent[0] == bpv7.EndpointID(*(bp.bndl.CanonicalBlocks[k].Value.(*bpv7.PreviousNodeBlock)))
+
+// govc:func (*BinarySpray).NotifyNewBundle property C18 C13
+//@ requires bs.bundleData != nil && bs.c != nil && bp.bndl != nil && blocksNonNil(*bp.bndl) && sprayTyped(*bp.bndl) && sprayUnique(*bp.bndl)
+//@ ghost a uint64
+//@ requires sprayIs(*bp.bndl, a)
+//@ assigns mapof(bs.bundleData)
+//@ ensures has(bs.bundleData, bp.Id)
+//@ ensures (forall j int :: 0 <= j && j < len(bp.bndl.CanonicalBlocks) ==> bp.bndl.CanonicalBlocks[j].Value.BlockTypeCode() != 192) ==> bs.bundleData[bp.Id].remainingCopies == bs.l && len(bs.bundleData[bp.Id].sent) == 0
+//@ ensures forall j int :: 0 <= j && j < len(bp.bndl.CanonicalBlocks) && bp.bndl.CanonicalBlocks[j].Value.BlockTypeCode() == 192 ==> bs.bundleData[bp.Id].remainingCopies == a
+//@ ensures forall j, i int :: 0 <= j && j < len(bp.bndl.CanonicalBlocks) && bp.bndl.CanonicalBlocks[j].Value.BlockTypeCode() == 192 && 0 <= i && i < len(bp.bndl.CanonicalBlocks) && bp.bndl.CanonicalBlocks[i].Value.BlockTypeCode() == 6 ==> len(bs.bundleData[bp.Id].sent) == 1 && exists k int :: 0 <= k && k < len(bp.bndl.CanonicalBlocks) && bp.bndl.CanonicalBlocks[k].Value.BlockTypeCode() == 6 && bs.bundleData[bp.Id].sent[0] == bpv7.EndpointID(*(bp.bndl.CanonicalBlocks[k].Value.(*bpv7.PreviousNodeBlock)))
